@@ -57,6 +57,14 @@ CLAIMED = {
    "Structural necessary conditions of admission by content: the extension/format/reader tables are mutually consistent and exhaustive over the format constants (Detect o Extension = id), every reader Open is dominated by the success edge of validateFormat, validateFormat succeeds only on the unknown-or-equal edges, the EPUB DRM check dominates every content-reading call, checkForDRM refuses on rights.xml / unparsable / covering encryption metadata and can say 'no DRM' only on the loop-exhausted edge of a scan over the complete member list, and ZIP sniffing scans the complete list in the order mimetype, container.xml, prefixes.",
    "Trusted: go/types constant evaluation, go/ssa dominance; behaviour on concrete member permutations, URI casing and what counts as a content document are not decided.",
    "constant-table composition + guard dominance + loop-exhaustion edge facts", "DESIGN.md §4 C20"),
+ "C14": ("other",
+   "Structural necessary conditions of 'exports parse back': a who-may-use rule on io.Writer values in package rag (only encoding/json and encoding/csv encoders or other rag functions held to the same rule), agreement of the column-name tables of the CSV header writer, the value reader and the standard-column set (including the metadata prefix), the map-order classification on the export code, a shape proof that ChunkCollection.Filter is a pure forward selection with one predicate call site and that every FilterBy*/Search delegates to it, a polynomial check that batch windows tile the input (step = batch size, window = chunks[i:min(i+size,len)], reported bounds = window bounds), one record per chunk with its own index, and receiver-write freedom of all Exporter methods.",
+   "Trusted: go/ssa, VTA-based callee write summaries, the standard encoders themselves; field-by-field equality after re-parsing and the vector-database layouts are not decided.",
+   "who-may-use/who-may-write effect rules + table agreement + polynomial window check + pure-filter shape proof", "DESIGN.md §4 C14"),
+ "C18": ("other",
+   "Structural necessary conditions of declared order: the loops that build the sheet, slide and chapter lists are forward ranges over the declared lists (workbook sheets by relationship id, p:sldIdLst by relationship id, OPF spine by manifest idref), append inside that loop, are not followed by a sort and do not derive from the ZIP member list; the PPTX declared list wins whenever non-empty (no other condition between the lookup and its use); EPUB hrefs are decoded with url.PathUnescape and joined to the package directory; the page count is the length of the same list.",
+   "Trusted: go/ssa; readability of declared parts and run-time path shapes are not decided.",
+   "loop-provenance (def-use) of ordered collections + disallowed-call rule + guard inspection", "DESIGN.md §4 C18"),
 }
 
 NOT_BUILT = "rules for this property are not built yet in this revision of /verif (see DESIGN.md §4 for the plan)"
